@@ -60,9 +60,9 @@ CHECKS.update({
         ref="3/C05",
     ),
     "C06": dict(
-        technique="runtime history monitor: outcome of every call in long random histories vs. the same call in a pristine interpreter forked from a zygote that never called einx",
+        technique="runtime history monitor: outcome of every call in long random histories vs. the same call in a pristine einx (side process that re-imports einx per query; audited by children forked from a zygote that never called einx)",
         text="Exploration: histories of 40-160 calls (valid, failing at parse/solve/semantic/run time, factories, adapters, confusable argument groups adjacent in both orders, with-blocks) are executed in one process; each outcome digest (exception class | dtype, shape, bytes | normalised graph text) must equal the pristine-process outcome; context stacks are checked after every call.",
-        note="Pristine oracle = os.fork from a zygote with einx imported and no call made; same hash seed. Fewer workers because fork/COW does not scale here.",
+        note="Pristine oracle = a process forked before any einx call that drops and re-imports all einx modules for every query (fresh module state, fresh user callables); 8 % of the queries are also answered by a fork-per-query child and the two must agree (else inconclusive). Graph text is compared up to variable naming. Same hash seed.",
         ref="3/C06",
     ),
     "C07": dict(
